@@ -3,17 +3,7 @@
 //!
 //! exit 0 = held on everything explored, 1 = VIOLATION printed, 2 = the harness could not run.
 
-#![feature(generic_const_exprs)]
-#![allow(incomplete_features)]
-#![allow(dead_code)]
-
-mod checks;
-mod gen;
-mod glue;
-mod oracle;
-mod procdrv;
-mod runner;
-mod search;
+use vharness::{checks, runner};
 
 use runner::{Ctx, Tier};
 use serde_json::Value;
@@ -130,18 +120,25 @@ fn main() {
 }
 
 fn replay_file(ctx: &Ctx, path: &str, print: bool) -> i32 {
-    let txt = match std::fs::read_to_string(path) {
-        Ok(t) => t,
+    let txt = match std::fs::read(path) {
+        Ok(t) => String::from_utf8_lossy(&t).to_string(),
         Err(e) => {
             eprintln!("cannot read {}: {}", path, e);
             return 2;
         }
     };
-    let v: Value = match serde_json::from_str(&txt) {
-        Ok(v) => v,
-        Err(e) => {
-            eprintln!("{} is not JSON: {}", path, e);
-            return 2;
+    let base = std::path::Path::new(path).file_name().map(|s| s.to_string_lossy().to_string()).unwrap_or_default();
+    let v: Value = if let Some(rest) = base.strip_prefix("fuzz-") {
+        // a raw libFuzzer artifact: fuzz-<target>-crash-<hash>
+        let target = vharness::fuzz_entry::TARGETS.iter().map(|t| t.0).find(|t| rest.starts_with(&format!("{}-", t))).unwrap_or("");
+        serde_json::json!({"check": target, "case": {"artifact": path}})
+    } else {
+        match serde_json::from_str(&txt) {
+            Ok(v) => v,
+            Err(e) => {
+                eprintln!("{} is not JSON: {}", path, e);
+                return 2;
+            }
         }
     };
     let Some(plan) = checks::plan(ctx) else {
